@@ -140,6 +140,58 @@ def check_tree(schema, rng, n_paths):
     return fails, len(ns), count
 
 
+PORT_CASES = [{'depth': d, 'up': u, 'decoy': dec} for d in (1, 2, 3) for u in (1, 2, 3, 4) if u <= d + 1 for dec in (False, True)]
+
+
+def check_port_paths(case):
+    """paths that run THROUGH a process port: root.get_path(<process> + (port, variable)) is the node that port variable is wired to,
+    also when one variable of the port is re-wired relative to the port's node with a path that climbs ('..') above the process"""
+    from vivarium.core.engine import Engine
+    from vivarium.core.process import Process
+
+    class P(Process):
+        defaults = {'timestep': 1.0}
+
+        def ports_schema(self):
+            return {'port': {'var_a': {'_default': 1}, 'var_b': {'_default': 2}}}
+
+        def next_update(self, timestep, states):
+            return {}
+    d, up = case['depth'], case['up']
+    levels = tuple('level%d' % i for i in range(d))
+    rewire = ('..',) * up + ('y',)
+    topo = {'port': {'_path': ('local',), 'var_a': rewire}}
+    procs, tp = {'proc': P()}, {'proc': topo}
+    for name in reversed(levels):
+        procs, tp = {name: procs}, {name: tp}
+    target = normalize_path(levels + ('local',) + rewire)
+    init = {}
+    if case['decoy'] and d >= 1:
+        # a node with the same name one level off the target, so that a wrong resolution lands somewhere instead of failing
+        node = init
+        for name in levels[:-1]:
+            node = node.setdefault(name, {})
+        node.setdefault(levels[-1], {})['y'] = 111 if levels[:-1] + (levels[-1], 'y') != target else None
+        if node[levels[-1]]['y'] is None:
+            del node[levels[-1]]['y']
+    try:
+        eng = Engine(processes=procs, topology=tp, initial_state=init, display_info=False, emitter='null')
+        root = eng.state
+        want = root.get_path(target)
+        got = root.get_path(levels + ('proc', 'port', 'var_a'))
+        gb = root.get_path(levels + ('proc', 'port', 'var_b'))
+        wb = root.get_path(levels + ('local', 'var_b'))
+    except Exception as e:
+        return ['depth %d, variable re-wired to %s: %s: %s' % (d, rewire, type(e).__name__, str(e)[:140])]
+    fails = []
+    if got is not want:
+        fails.append('depth %d: the path through the port reaches %s, the port variable is wired to %s by %r'
+                     % (d, got.path_for(), want.path_for(), topo))
+    if gb is not wb:
+        fails.append('depth %d: port/var_b reached through the process is %s, it is wired to %s' % (d, gb.path_for(), wb.path_for()))
+    return fails
+
+
 def main():
     ap = argparse.ArgumentParser()
     ap.add_argument('--tier', default='quick'); ap.add_argument('--seed', type=int, default=0)
@@ -147,6 +199,10 @@ def main():
     a = ap.parse_args()
     if a.replay:
         d = json.load(open(a.replay))
+        if 'port_case' in d['scenario']:
+            fails = check_port_paths(d['scenario']['port_case'])
+            L.emit_result({'status': 'reproduced' if fails else 'not-reproduced', 'failed': fails[:5]})
+            return
         fails, _, _ = check_tree(d['scenario']['schema'], random.Random(d['scenario']['seed']), d['scenario']['n_paths'])
         L.emit_result({'status': 'reproduced' if fails else 'not-reproduced', 'failed': fails[:5]})
         return
@@ -169,6 +225,15 @@ def main():
             failures.append({'id': 'C17.bounded.store-navigation#%d: %s' % (i, fails[0][:160]), 'replay': rp})
             if len(failures) >= 3:
                 break
+    for pi, case in enumerate(PORT_CASES):
+        if len(failures) >= 3:
+            break
+        evaluations += 1
+        distinct.add('port-%d' % pi)
+        fails = check_port_paths(case)
+        if fails:
+            rp = L.write_replay(a.out, 'C17', 'port%d' % pi, {'port_case': case}, fails, extra={'driver': 'bounded.c17'})
+            failures.append({'id': 'C17.bounded.port-path#%d: %s' % (pi, fails[0][:200]), 'replay': rp})
     L.emit_result({'status': 'violated' if failures else 'ok', 'evaluations': evaluations,
                    'distinct_nontrivial': len(distinct), 'failures': failures, 'samples': samples,
                    'rule': 'random Store trees (depth<=3, keys a,b,c); all ordered node pairs for path_to, random relative '
